@@ -199,6 +199,20 @@ def compare(doc, uri, next_free, prop, M, case, compiler=None):
         M.violation(prop + ".crash", {"what": "exception escaped Compiler.compile", "type": type(e).__name__,
                                       "repr": repr(e)[:160], "origin": origin}, case, mechanism=mech)
         return None
+    if compiler is None and M.counters.get("compile_calls", 0) % 4 == 0:
+        # the same document compiled a second time (a caller may compile a document it has kept): same pickles
+        M.count("recompiles_compared")
+        try:
+            got2 = Compiler(generator_at(next_free)).compile(doc)
+        except Exception as e:
+            got2 = {"raised": repr(e)[:160]}
+        if got2 != got:
+            d2 = diff_groups(got2, want) if isinstance(got2, list) else {prop: [{"got": got2}]}
+            if prop in d2 or not isinstance(got2, list):
+                M.violation(prop + ".recompile", {"what": "compiling the same document a second time gives other pickles (%s)" % GROUPS.get(prop, prop),
+                                                  "differences": short(d2.get(prop), 300)}, case)
+            else:
+                M.count("advisory.recompile_differs_in_other_group")
     if compiler is not None:
         # a pickle list returned by an earlier compile() on the same Compiler must not change when the next document is compiled
         prev = _HELD.get(id(compiler))
@@ -351,3 +365,67 @@ def childless_without_uri(prop, M):
             if res != []:
                 M.violation(prop + ".pickles", {"what": "a document without scenarios compiled to pickles", "text": text, "n": len(res)}, case)
                 break
+
+
+class YieldingGen:
+    """A caller's id generator that gives other threads a chance on every draw (a lock, a database sequence, ...)."""
+
+    def __init__(self, start):
+        self.n = start
+
+    def get_next_id(self):
+        import time
+        time.sleep(0)
+        v = str(self.n)
+        self.n += 1
+        time.sleep(0)
+        return v
+
+
+def threaded_compile(prop, M, seed, rounds=25, nthreads=4):
+    """Several Compiler objects at work in several threads, each on its own documents, with id generators that yield the
+    processor on every draw: every result equals the result the same compile gives alone."""
+    import random as _random
+    import sys
+    import threading
+    r = _random.Random("%s-threads-%s" % (prop, seed))
+    docs = []
+    while len(docs) < nthreads * 3:
+        doc = AstGen(r, hostile_names=True).doc()
+        k = assign_ids(doc)
+        doc["uri"] = "features/t.feature"
+        if sum(len(c.get("scenario", {}).get("examples", [])) for c in doc.get("feature", {}).get("children", []) if "scenario" in c) >= 2:
+            docs.append((doc, k))
+    ref = [Compiler(YieldingGen(k)).compile(copy.deepcopy(d)) for d, k in docs]
+    results = {}
+    errors = []
+
+    def work(t):
+        try:
+            for n in range(rounds):
+                j = (t * 3 + n) % len(docs)
+                d, k = docs[j]
+                results[(t, n)] = (j, Compiler(YieldingGen(k)).compile(copy.deepcopy(d)))
+        except Exception as e:
+            errors.append(repr(e)[:200])
+
+    old = sys.getswitchinterval()
+    sys.setswitchinterval(1e-6)
+    try:
+        ths = [threading.Thread(target=work, args=(t,)) for t in range(nthreads)]
+        for t in ths:
+            t.start()
+        for t in ths:
+            t.join()
+    finally:
+        sys.setswitchinterval(old)
+    M.count("threaded_compiles", len(results))
+    case = {"kind": "threads", "seed": seed}
+    if errors:
+        M.violation(prop + ".threads", {"what": "exception in a thread that compiles with its own Compiler while other threads compile too", "errors": errors[:3]}, case)
+    bad = [(key, j) for key, (j, res) in results.items() if res != ref[j]]
+    if bad:
+        (t, n), j = bad[0]
+        M.violation(prop + ".threads", {"what": "a Compiler working in one thread while other Compiler objects work in other threads returns other pickles than alone",
+                                        "deviating_compiles": len(bad), "of": len(results),
+                                        "differences": short(diff_groups(results[(t, n)][1], ref[j]), 300)}, case)
